@@ -1,12 +1,16 @@
-(* Hand-written driver for the extracted Coq model (Model = Extract/model.ml).
+(* Hand-written driver for the extracted Coq models (Extract/out/*.ml, one per Coq module).
    Reads one case per line on stdin, prints one canonical result line per case.
    Tokens: decimal integers; L<d,d,..> = list of numbers ("L" = empty); B<hex> = bytes ("B" = empty). *)
-open Model
+module List = Stdlib.List
+module String = Stdlib.String
+open BinNums
+open TextMap
 
 let rec pos_of_int (i : int) : positive =
-  if i <= 1 then XH else if i land 1 = 1 then XI (pos_of_int (i lsr 1)) else XO (pos_of_int (i lsr 1))
+  if i <= 1 then Coq_xH else if i land 1 = 1 then Coq_xI (pos_of_int (i lsr 1)) else Coq_xO (pos_of_int (i lsr 1))
+type n = coq_N
 let n_of_int (i : int) : n = if i <= 0 then N0 else Npos (pos_of_int i)
-let rec int_of_pos = function XH -> 1 | XO p -> 2 * int_of_pos p | XI p -> 2 * int_of_pos p + 1
+let rec int_of_pos = function Coq_xH -> 1 | Coq_xO p -> 2 * int_of_pos p | Coq_xI p -> 2 * int_of_pos p + 1
 let int_of_n = function N0 -> 0 | Npos p -> int_of_pos p
 
 let split_on c s = if s = "" then [] else String.split_on_char c s
@@ -53,10 +57,26 @@ let c07 (toks : string list) : string =
   in
   String.concat " ; " (go tm_new toks [])
 
+(* ---------------- C14: localisation ---------------- *)
+let game_of_int = Localize.(function 0 -> GNoOp | 1 -> GFE9 | 2 -> GFE10 | 3 -> GFE13 | 4 -> GFE14 | _ -> GFE15)
+let lang_of_int = Localize.(function 0 -> EnglishNA | 1 -> EnglishEU | 2 -> Japanese | 3 -> Spanish | 4 -> French
+                         | 5 -> Italian | 6 -> German | _ -> Dutch)
+let c14 (toks : string list) : string =
+  match toks with
+  | [g; l; p] ->
+    (match Localize.localize (game_of_int (int_of_string g)) (lang_of_int (int_of_string l)) (parse_l p) with
+     | Localize.LOk s -> "ok " ^ show_l s
+     | Localize.LErr Localize.LMissingParent -> "err missing-parent"
+     | Localize.LErr Localize.LMissingFileName -> "err missing-file-name"
+     | Localize.LErr Localize.LUnsupportedLanguage -> "err unsupported-language"
+     | Localize.LUnmodelled -> "unmodelled")
+  | _ -> failwith "c14: bad case"
+
 let handle (line : string) : string =
   match List.filter (fun s -> s <> "") (String.split_on_char ' ' line) with
   | [] -> ""
   | "c07" :: r -> c07 r
+  | "c14" :: r -> c14 r
   | k :: _ -> "UNKNOWN-KIND " ^ k
 
 let () =
